@@ -319,7 +319,8 @@ def object_copy_problems(interface, prefix):
     # and genes): copying or combining them must leave the model alone as well
     detached = [o for o in S.removed.values() if getattr(o, "_model", None) is None and o.id not in m.reactions]
     for r in list(m.reactions) + detached:
-        for kind in ("copy", "add", "sub", "mul") + (("radd",) if r in detached else ()):
+        # (sum() starts from 0: "sum1"/"sum2" go through the reflected addition with a number on the left)
+        for kind in ("copy", "add", "sub", "mul", "sum1", "sum2") + (("radd",) if r in detached else ()):
             before = full_view(S)
             g_before = mutable_graph(m)
             try:
@@ -327,7 +328,8 @@ def object_copy_problems(interface, prefix):
                     warnings.simplefilter("ignore")
                     other = m.reactions[0] if m.reactions[0] is not r else m.reactions[-1]
                     new = {"copy": lambda: r.copy(), "add": lambda: r + other, "sub": lambda: r - other,
-                           "mul": lambda: r * 2, "radd": lambda: other + r}[kind]()
+                           "mul": lambda: r * 2, "radd": lambda: other + r, "sum1": lambda: sum([r]),
+                           "sum2": lambda: sum([r, other])}[kind]()
             except Exception as exc:
                 P.append((f"Reaction {kind} raised " + type(exc).__name__, repr(exc)))
                 continue
